@@ -233,13 +233,30 @@ def serial_saturation(logic, funcs):
         reasons = []
         class HistModel(SymVal):
             def __init__(s, rm, br): s.rm, s.br = rm, br
+            def _empty(s, it):
+                n_ = it.path.notes
+                if 'history_empty' not in n_: n_['history_empty'] = it.fork(it.fresh_bool('history_empty'))
+                return n_['history_empty']
+            def sym_len(s, it):
+                if s._empty(it): return 0
+                n = it.fresh_int('history_len'); it.assume(n >= 1); return n
+            def sym_truth(s, it): return not s._empty(it)
+            def _last(s, it):
+                n_ = it.path.notes
+                if 'last_entry' not in n_:
+                    same = it.fork(it.fresh_bool('last_entry_is_serial_on_this_branch'))
+                    n_['last_is_self'] = same
+                    from checks.structs import Holder
+                    n_['last_entry'] = Holder(rule=(s.rm if same else 'other-rule'), target=Holder(branch=(s.br if same else 'other-branch')))
+                return n_['last_entry']
+            def sym_getitem(s, it, k):
+                if s._empty(it): raise PyExc(IndexError, ('history is empty',))
+                if k in (-1,): return s._last(it)
+                raise Outside('history[k] for k other than -1')
             def sym_iter(s, it):
                 # reversed(history): empty, or last entry is (this rule, this branch), or something else
-                if it.fork(it.fresh_bool('history_empty')): return []
-                same = it.fork(it.fresh_bool('last_entry_is_serial_on_this_branch'))
-                it.path.notes['last_is_self'] = same
-                from checks.structs import Holder
-                return [Holder(rule=(s.rm if same else 'other-rule'), target=Holder(branch=(s.br if same else 'other-branch')))]
+                if s._empty(it): return []
+                return [s._last(it)]
         class MaxW(SymVal):
             def sym_getattr(s, it, name):
                 if name == 'is_exceeded':
@@ -268,7 +285,8 @@ def serial_saturation(logic, funcs):
             out.append(Result(f'C02.saturation.{L}.Serial.skips-justified', 'unknown', detail=f'outside subset: {e}', where=fi.where)); continue
         offered = 0
         for pr in prs:
-            if pr.kind != 'return': reasons.append('exception'); continue
+            if pr.kind == 'cut': continue                 # infeasible continuation, not an execution
+            if pr.kind != 'return': reasons.append(f'exception {getattr(pr.value, "cls", type(pr.value)).__name__}'); continue
             targets, path = pr.value
             if targets: offered += 1; continue
             if path.notes.get('maxworlds'): reasons.append('world limit reached (no flag node is added)')
